@@ -45,6 +45,7 @@ func NewGzipHandler(h http.Handler, contentTypes *regexp.Regexp) http.Handler {
 
 		if acceptsGzip(r) {
 			gzWriter := NewGzipResponseWriter(w, contentTypes)
+			gzWriter.headOnly = r.Method == http.MethodHead
 			defer gzWriter.Close()
 			h.ServeHTTP(gzWriter, r)
 		} else {
@@ -57,6 +58,7 @@ type GzipResponseWriter struct {
 	writer       io.Writer
 	gzipWriter   *gzip.Writer
 	contentTypes *regexp.Regexp
+	headOnly     bool // response to a HEAD request: headers only
 	http.ResponseWriter
 }
 
@@ -79,10 +81,18 @@ func (grw *GzipResponseWriter) WriteHeader(code int) {
 		if bodyAllowedForStatus(code) && isCompressable(grw.Header(), grw.contentTypes) {
 			grw.Header().Del(headerContentLength)
 			grw.Header().Set(headerContentEncoding, encodingGzip)
-			grw.gzipWriter = gzipWriterPool.Get().(*gzip.Writer)
-			grw.gzipWriter.Reset(grw.ResponseWriter)
+			if grw.headOnly {
+				// The response to a HEAD request gets the headers of the
+				// compressed response but there is no body to compress.
+				// Nothing must be written, not even an empty gzip stream,
+				// since the server derives a Content-Length from it.
+				grw.writer = io.Discard
+			} else {
+				grw.gzipWriter = gzipWriterPool.Get().(*gzip.Writer)
+				grw.gzipWriter.Reset(grw.ResponseWriter)
 
-			grw.writer = grw.gzipWriter
+				grw.writer = grw.gzipWriter
+			}
 		} else {
 			grw.writer = grw.ResponseWriter
 		}
